@@ -1,4 +1,5 @@
 import LitexModel.Axi.LiteInterconnect
+import LitexModel.Axi.LiteInterconnectTimeout
 import LitexModel.Wishbone.Interconnect
 import LitexModel.DriverLib
 import LitexModel.Bits
@@ -12,6 +13,7 @@ import LitexModel.Bits
   `*.pay` = the channel's pass-through payload packed into one number by the harness (see `harness/axilib.py`).
 
   open shared <n> <m> <full 0|1> <dw> <addrWidth> <dec_0> … <dec_{m-1}>
+  open sharedt <n> <m> <full 0|1> <dw> <addrWidth> <t> <dec_0> …      (shared interconnect with timeout_cycles = t)
   open xbar   <n> <m> <full 0|1> <dw> <addrWidth> <dec_0> … <dec_{m-1}>
   open arb    <n> <full 0|1>                                    (AXI(Lite)Arbiter alone: 1 slave = the target)
   open dec    <m> <full 0|1> <dw> <addrWidth> <dec_0> …         (AXI(Lite)Decoder alone: 1 master)
@@ -84,6 +86,15 @@ def parseCfg (args : List String) : Option Cfg :=
     if ds.length = m then
       some { n, m, dec := Wishbone.decOfSpecs dw aw ds, shift := Nat.log2 (dw / 8), full }
     else none
+  | _ => none
+
+/-- `<n> <m> <full> <dw> <addrWidth> <t> <decs…>` -/
+def parseTCfg (args : List String) : Option TCfg :=
+  match args with
+  | n :: m :: full :: dw :: aw :: t :: decs => do
+    let c ← parseCfg (n :: m :: full :: dw :: aw :: decs)
+    let t ← t.toNat?; let dw ← dw.toNat?
+    some { toCfg := c, t, dw }
   | _ => none
 
 end Litex.Axi.Lite
